@@ -19,6 +19,7 @@ func init() {
 		Assumptions: []string{"fmutils.Filter(msg, paths) keeps exactly the listed paths of msg; proto.Clone is a deep copy"},
 		Run:         runC06,
 		Controls: []Control{
+			{Name: "empty-mask-treated-as-nil", File: "pkg/masks/get.go", Old: "func WithFieldMask(fm *fieldmaskpb.FieldMask) ResponseFilterOption {\n\tif fm == nil {\n", New: "func WithFieldMask(fm *fieldmaskpb.FieldMask) ResponseFilterOption {\n\tif len(fm.GetPaths()) == 0 {\n", Expect: "R06.8"},
 			{Name: "filterclone-filters-original", File: "pkg/masks/get.go", Old: "\tfmutils.Filter(clone, paths)\n\treturn clone", New: "\tfmutils.Filter(msg, paths)\n\treturn msg", Expect: "R06.1"},
 			{Name: "empty-mask-returns-everything", File: "pkg/masks/get.go", Old: "\tif len(paths) == 0 {\n\t\tproto.Reset(clone)\n\t\treturn clone\n\t}\n\tfmutils.Filter(clone, paths)", New: "\tif len(paths) == 0 {\n\t\treturn msg\n\t}\n\tfmutils.Filter(clone, paths)", Expect: "R06.1"},
 			{Name: "revert-F52-raw-paths", File: "pkg/masks/get.go", Old: "\tfmutils.Filter(clone, paths)\n\treturn clone", New: "\tfmutils.Filter(clone, r.fields.GetPaths())\n\treturn clone", Expect: "R06.6"},
@@ -49,8 +50,10 @@ func runC06(c *an.Ctx) {
 	c.Min("R06.3", 1)
 	c.Min("R06.4", 2)
 	r066(c)
-	c.Min("R06.6", 2)
-	c.Min("R06.7", 2)
+	r068(c, "R06.8")
+	c.Min("R06.8", 3)
+	c.Min("R06.6", 1)
+	c.Min("R06.7", 1)
 }
 
 func r061(c *an.Ctx) { r061as(c, "R06.1") }
@@ -895,4 +898,45 @@ func r058(c *an.Ctx, rule string) {
 		})
 	}
 	c.Count("fmutils_calls_on_the_write_side", n)
+}
+
+// r068: an empty mask is not "no mask". WithFieldMask declines to configure the filter (returns the do-nothing option)
+// exactly when the mask is nil: a non-nil mask without paths selects nothing, and a filter that treats it like nil
+// hands out the whole stored message (by reference) for a request that asked for no fields. The same for the update
+// side's WithUpdateMask / WithWritableFields.
+func r068(c *an.Ctx, rule string) {
+	for _, name := range []string{"WithFieldMask", "WithUpdateMask", "WithWritableFields"} {
+		fn := c.Prog.Func("pkg/masks", "", name)
+		if fn == nil || len(fn.Params) != 1 {
+			continue
+		}
+		leaves := an.DecisionTree(fn, an.DTConfig{Names: map[ssa.Value]string{fn.Params[0]: "fm"}})
+		ok, why := len(leaves) > 0, ""
+		sawNil, sawSet := false, false
+		for _, l := range leaves {
+			if l.Undec != "" || len(l.Returns) != 1 {
+				ok, why = false, "decision table not extracted: "+l.Undec
+				continue
+			}
+			declines := strings.Contains(l.Returns[0].S, "empty") && strings.Contains(l.Returns[0].S, "Option")
+			isNil := l.Get("fm==nil")
+			others := len(l.AssignM)
+			if isNil != "" {
+				others--
+			}
+			switch {
+			case declines && isNil == "true" && others == 0:
+				sawNil = true
+			case !declines && isNil == "false" && others == 0:
+				sawSet = true
+			default:
+				ok, why = false, fmt.Sprintf("path %v returns %s", l.Assign, l.Returns[0].S)
+			}
+		}
+		if ok && !(sawNil && sawSet) {
+			ok, why = false, "the nil / non-nil rows were not both found"
+		}
+		c.Check(ok, rule, "pkg/masks."+name+"|declines exactly for a nil mask", fn.Pos(), "nil -> do-nothing option, anything else is configured",
+			"the option does not configure the mask in exactly the non-nil case ("+why+"): a non-nil mask without paths means `no fields` (reads return an empty message, updates change nothing); treated like nil it means `everything`, and reads hand out the stored message itself")
+	}
 }
